@@ -503,6 +503,7 @@ pub fn all() -> Vec<Scenario> {
                            ("kb-d1-base-in-quintic", 8, crate::chsweep::sweep_base), ("kb-d1-base-in-quintic-partial-first-block", 3, crate::chsweep::sweep_base),
                            ("kb-d1-base-in-quintic-sample-first", 0, crate::chsweep::sweep_base)] {
         match catch_unwind(AssertUnwindSafe(|| f(first, nm))) {
+            Ok(Ok(sw)) if !sw.errors.is_empty() => per_bit.push(Scenario { id: Box::leak(format!("challenger-table-cell-{nm}").into_boxed_str()), properties: &["C06"], what: "", honest: format!("sweep incomplete: {}", sw.errors[0]), forged: None, accepted: false, detail: json!({"errors": sw.errors.len()}) }),
             Ok(Ok(sw)) => {
                 for class in &sw.classes {
                     let acc = sw.accepted.iter().find(|a| &a.0 == class);
